@@ -116,7 +116,10 @@ pub async fn run_pair() {
     // a third link in the other direction: the listener sends, the client receives and retires
     // deliveries under its transactions
     let n_feed = pick(&[0u64, 3, 6]);
-    sim::set_config(format!("variant=pair controllers={} max-frame-size={} end-with-live-txns-by-session-end={} feed={} {}", n_ctrl, mfs, end_with_session, n_feed, nd));
+    // a max-message-size on the posting links: the controller's sending link cuts a big post into
+    // several transfers, every one of which belongs to the transaction
+    let mms = pick(&[None, None, Some(500u64)]);
+    sim::set_config(format!("variant=pair controllers={} max-frame-size={} end-with-live-txns-by-session-end={} feed={} posting-link-max-message-size={:?} {}", n_ctrl, mfs, end_with_session, n_feed, mms, nd));
     sim::mark_nontrivial();
     sim::set_panic_is_violation(true);
     let mut models = Models::none();
@@ -148,7 +151,10 @@ pub async fn run_pair() {
         sim::spawn(
             "listener-session",
             sim::in_group(2, async move {
-                let la = LinkAcceptor::new();
+                let la = match mms {
+                    Some(m) => LinkAcceptor::builder().max_message_size(m).build(),
+                    None => LinkAcceptor::new(),
+                };
                 for _ in 0..(if n_feed > 0 { 3 } else { 2 }) {
                     match la.accept(&mut lsess).await {
                         Ok(LinkEndpoint::Sender(mut s)) => {
@@ -324,6 +330,9 @@ pub async fn run_pair() {
                     Some(Ok(())) => {
                         m.posts.push((link, uid));
                         sim::probe(if big { "posted-multi-frame" } else { "posted" });
+                        if big && mms.is_some() {
+                            sim::probe("post-split-by-the-link-at-max-message-size");
+                        }
                     }
                     Some(Err(e)) => {
                         sim::violation("post-failed", format!("post of message {} (big={}) under a live transaction failed: {:?}", uid, big, e));
